@@ -560,12 +560,16 @@ class C10(BaseCheck):
             got['grid'] = True
         except ValueError:
             got['grid'] = False
+        except Exception as e:
+            got['grid'] = 'error:' + type(e).__name__
         for mode, name in ((hs.MODE_ZINC, 'zinc-writer'), (hs.MODE_JSON, 'json-writer')):
             try:
                 hs.dump_scalar(mkv(hs, spec), mode=mode, version=hs.Version(ver))
                 got[name] = True
             except ValueError:
                 got[name] = False
+            except Exception as e:
+                got[name] = 'error:' + type(e).__name__
         stats['agreement_checks'] = 1
         bad = {k: v for k, v in got.items() if v != want}
         if bad:
